@@ -166,6 +166,7 @@ def build_driver(name="driver", extract_v="theories/Extract/Extract.v", modname=
 
 
 def build_harness(targets, timeout=2400):
+    regen_translators()      # harness/gen_stdlib_dispatch.inc follows /repo's stdlib
     ok, log, dt = cxxbuild.build(targets, timeout=timeout)
     return ok, log
 
